@@ -159,12 +159,21 @@ def main(argv=None):
     agg = {'paths': 0, 'infeasible': 0, 'decisions': 0, 'twins': 0, 'nontrivial': 0}
     stats = {}
     errors, violations, unconfirmed, samples, reached, notes = [], [], [], [], {}, {}
+    truncated = []
+    allowed_truncations = 0 if getattr(mod, 'EXHAUSTIVE', {}).get(args.tier, False) else int(getattr(mod, 'TRUNCATION_OK', {}).get(args.tier, 0))
     for r in results:
         for k in agg:
             agg[k] += r[k]
         for k, v in r['stats'].items():
             stats[k] = stats.get(k, 0) + v
-        errors += [f"{e}   [job {json.dumps(r['params'])[:200]}]" for e in r['errors']]
+        for e in r['errors']:
+            msg = f"{e}   [job {json.dumps(r['params'])[:200]}]"
+            # a *sampled*, non-exhaustive tier may declare that a small number of its random jobs may run out of their path/time budget:
+            # the paths explored so far stay checked, the job is listed as truncated (evidence + TRUNCATED line), nothing is claimed for the rest
+            if e.startswith('budget exceeded') and len(truncated) < allowed_truncations:
+                truncated.append(msg)
+            else:
+                errors.append(msg)
         violations += r['violations']
         unconfirmed += r['unconfirmed']
         for k, v in r['reached'].items():
@@ -245,6 +254,7 @@ def main(argv=None):
             'reached_labels': reached,
             'known_findings_matched': {k: v['count'] for k, v in known_hits.items()},
             'harness_errors': errors[:10],
+            'truncated_jobs': truncated[:20], 'truncated_jobs_allowed': allowed_truncations,
             'extra_engines': extra.get('evidence', {}),
             'notes': notes,
             'explanation': getattr(mod, '__doc__', '') or '',
@@ -261,6 +271,8 @@ def main(argv=None):
     print(f"[{pid} {args.tier}] jobs={len(jobs)} paths={states} decisions={transitions} twins={evidence['coverage']['traces_validated_against_impl']} "
           f"obligations={obligations} discharged={discharged} queries={evidence['coverage']['queries']} "
           f"solver_s={evidence['coverage']['solver_s']} wall_s={wall:.1f}")
+    for t_ in truncated[:5]:
+        print(f"TRUNCATED: property={pid} (sampled job, explored paths checked, rest not claimed) {t_[:300]}")
     for kid, h in known_hits.items():
         print(f"KNOWN-FINDING: property={pid} {kid} {h['finding'].get('what', '')} ({h['count']} counterexamples, e.g. "
               f"{json.dumps(h['example']['params'])[:160]})")
